@@ -399,8 +399,19 @@ def mon_interrupt_stamp(scn, run):
             continue
         prev_done = [d for d in dones if d["n"] < R["n"]]
         prev_calls = [c for c in calls if c["n"] < R["n"]]
-        if not prev_done or len(prev_calls) != len(prev_done):
-            continue  # mid-tick: covered by C07 monitors
+        if not prev_calls:
+            continue
+        if len(prev_calls) != len(prev_done):
+            # raised while a tick is in progress: stamped relative to that tick's start
+            cur = prev_calls[-1]
+            exp = cur["time"] + ((R["real"] - cur["real"]) * num) // den
+            top = top_of(R["comp"])
+            cur_done = next((d for d in dones if d["n"] > cur["n"]), None)
+            nxt = next((c for c in calls if c["n"] > R["n"] and top in c["roots"]), None)
+            already = any(u["comp"] == R["comp"] and R["n"] < u["n"] < (cur_done["n"] if cur_done else 10**18) for u in tr.of("update"))
+            if nxt is not None and not already and nxt["time"] > exp:
+                out.append(V("interrupt-stamp-wrong", f"interrupt of {R['comp']} raised mid-tick at real={R['real']} (tick @{cur['time']} started real={cur['real']}, speed {num}/{den}) served by tick @{nxt['time']}, expected @{exp}", comp=R["comp"], phase="mid-tick"))
+            continue
         nxt = next((c for c in calls if c["n"] > R["n"]), None)
         if nxt is None or top_of(R["comp"]) not in nxt["roots"]:
             continue
